@@ -40,8 +40,9 @@ ASSUMPTIONS = [
 ]
 
 SELECTIONS = ['A:1', 'A:1 X:1', 'B:1', 'A:1 B:1', 'C:1', None, 'D:1', 'X:1']
-EXPANDS = [None, '', 'C:1', 'B:1', 'P:1']
-OUTSIDERS = ['B', 'C', 'X', 'U', 'P2']
+EXPANDS = [None, '', 'C:1', 'B:1', 'P:1'] + (['C:1 P:1', 'U:1', '*'] if rt.THOROUGH else [])
+OUTSIDERS = ['B', 'C', 'X', 'U', 'P2'] + (['D', 'P'] if rt.THOROUGH else [])
+NE, NO = len(EXPANDS), len(OUTSIDERS)
 
 
 def _pick(options, k):
@@ -185,7 +186,7 @@ def _make(sel, exp):
 
 def h_contained(ksel: int, kexp: int) -> bool:
     """
-    pre: ksel == rt.part(8)[0] and 0 <= kexp < 5
+    pre: ksel == rt.part(8)[0] and 0 <= kexp < NE
     post: _
     """
     _build()
@@ -215,13 +216,13 @@ def h_contained(ksel: int, kexp: int) -> bool:
 
 def h_noninterference(ksel: int, kexp: int, kout: int) -> bool:
     """
-    pre: ksel == rt.part(8)[0] and 0 <= kexp < 5 and 0 <= kout < 5
+    pre: ksel == rt.part(8)[0] and 0 <= kexp < NE and 0 <= kout < NO
     post: _
     """
     sel, exp = _pick(SELECTIONS, ksel), _pick(EXPANDS, kexp)
     out_lex = _pick(OUTSIDERS, kout)
-    if sel is None:
-        return rt.verdict(True)          # the unrestricted mode sees every lexicon by definition
+    if sel is None or exp == '*':
+        return rt.verdict(True)          # the unrestricted mode / expand='*' sees every lexicon by definition
     scope = [t.split(':')[0] for t in sel.split()]
     # the absent lexicon must be outside the selection and outside its expand set
     if exp is None:
